@@ -593,8 +593,8 @@ fn sweep_corpus_mutations(rec: &Recorder, thorough: bool) -> Tally {
         .enumerate()
         .map(|(i, (path, b))| {
             let mut tl = Tally::default();
-            // quick: all slim files whose index is a multiple of 3 and every 16th fat file; thorough: every file
-            let take = if thorough { true } else { (path.contains("/slim/") && i % 3 == 0) || i % 16 == 0 };
+            // quick: every slim file and every 4th fat file; thorough: every file
+            let take = if thorough { true } else { path.contains("/slim/") || i % 4 == 0 };
             if !take {
                 return tl;
             }
@@ -708,7 +708,7 @@ pub fn run(args: &Args) -> i32 {
     total = total.merge(sweep_header_counts(&rec));
     rec.add(total.evals, total.corrupt);
     rec.digest("tzif", total.digest);
-    rec.set_rule("writer side: zones over {0,1,3} transitions x {1,2,3} types x {0,1,2} leap records x 4 designation pools (shared / overlapping / empty / unterminated tail) x 4 indicator layouts x 4 time sets (32/64-bit extremes) x footers, encoded v1/v2/v3 by an independent writer with a DIFFERENT zone in the 32-bit block of v2+ files; decoded zone must equal TimeZone::new(expected parts). reader side: every file of the fat and slim corpora decoded by an independent reader; corpus mutations (6 byte values at every offset and every truncation of a third of the slim / a sixteenth of the fat files; thorough: all 256 values at every offset of every distinct file) must get the same accept/reject verdict and zone as the independent reader. reject side: every corruption class of the property on the synthesised files; header count tuples (0..=4 indicators, 0..=3 types, 0/4 chars) with a block laid out to match, in either header; every designation index 0..=255 x length 0..=8 x 3 pool tails; different version bytes in the two headers. non-trivial = corrupted files");
+    rec.set_rule("writer side: zones over {0,1,3} transitions x {1,2,3} types x {0,1,2} leap records x 4 designation pools (shared / overlapping / empty / unterminated tail) x 4 indicator layouts x 4 time sets (32/64-bit extremes) x footers, encoded v1/v2/v3 by an independent writer with a DIFFERENT zone in the 32-bit block of v2+ files; decoded zone must equal TimeZone::new(expected parts). reader side: every file of the fat and slim corpora decoded by an independent reader; corpus mutations (6 byte values at every offset and every truncation of every slim and a quarter of the fat files; thorough: all 256 values at every offset of every distinct file) must get the same accept/reject verdict and zone as the independent reader. reject side: every corruption class of the property on the synthesised files; header count tuples (0..=4 indicators, 0..=3 types, 0/4 chars) with a block laid out to match, in either header; every designation index 0..=255 x length 0..=8 x 3 pool tails; different version bytes in the two headers. non-trivial = corrupted files");
     rec.set_exhaustive(true);
     rec.outcome("accepted");
     rec.outcome("rejected");
